@@ -8,7 +8,7 @@ ID = 'C01'
 TARGETS = ['MindsVerif.Props.C01']
 THEOREMS = ['MindsVerif.Props.C01.' + n for n in (
     'C01_partial_select', 'C01_partial_select_good', 'C01_select_good', 'C01_partial_select_stable',
-    'C01_partial_union', 'C01_partial_union_left', 'C01_witness_union',
+    'C01_partial_union', 'C01_partial_union_wf', 'C01_union_wf', 'C01_regress_union',
     'C01_partial_expr_sqlite', 'C01_partial_expr_mysql', 'C01_partial_expr_mindsdb',
     'C01_regress_parameter', 'C01_regress_variable', 'C01_partial_compose', 'C01_partial_select_expr',
     'C01_partial_select_expr_sqlite', 'C01_partial_select_expr_mysql', 'C01_partial_select_expr_mindsdb')]
@@ -646,16 +646,22 @@ def skeleton_stream(chk, cl, dist, quick):
             cls = type(t).__name__
             if cls == 'Select':
                 return 's%d' % t.targets[0].value
-            nm = {'Union': 'u', 'Intersect': 'i', 'Except': 'e'}[cls] + ('' if t.unique else 'a')
+            nm = {'Union': 'u', 'Intersect': 'i', 'Except': 'e'}[cls] + ('' if t.unique else 'a') + ('!' if t.parentheses else '')
             return '(%s %s %s)' % (nm, showq(t.left), showq(t.right))
         try:
             t = parse_sql(text, 'mindsdb')
             t2 = parse_sql(t.to_string(), 'mindsdb')
+            printed = t.to_string()
             impl = 'some %s rt=%d' % (showq(t), 1 if showq(t2) == showq(t) else 0)
         except Exception as e:
             impl = 'none'
         parts = [x.strip() for x in o.split('|')]
         model = 'none' if parts[0] == 'none' else '%s %s' % (parts[0], parts[2])
+        if impl == model and impl != 'none':
+            # the printed token sequence of the real printer = printQ of the model
+            want = ' '.join('SELECT %s' % w[1:] if w[0] == 's' else OPS.get(w, w) for w in parts[1].split())
+            if norm(want) != norm(printed):
+                impl = impl + ' printed=' + printed.replace('\n', ' ')
         if impl != model:
             diverged += 1
             first = first or dict(text=text, model=o, impl=impl)
@@ -689,8 +695,8 @@ def run(chk):
             pass
     chk.samples.append(dict(theorem='C01_partial_select: C01_full (parseSkel c) printSkel id  — for every clause sequence the '
                                     'rules accept, the clauses Select.get_string emits pass ensure_select_keyword_order and rebuild the record'))
-    chk.samples.append(dict(theorem='C01_partial_union: noGrp toks → parseQ toks = some q → parseQ (printQ q) = some q;  '
-                                    'C01_witness_union: SELECT 0 EXCEPT (SELECT 1 EXCEPT SELECT 2) does not round-trip'))
+    chk.samples.append(dict(theorem='C01_partial_union : C01_full parseQ printQ id — every token list the set-operation rules accept '
+                                    '(parenthesised operands on either side, any nesting) round-trips, parentheses flags included'))
     for cls, cnt in sorted(cl.by_class.items(), key=lambda x: -x[1])[:6]:
         chk.samples.append(dict(failure_class=cls, count=cnt))
     if os.environ.get('C01_DUMP'):
